@@ -114,8 +114,10 @@ def _snapshot(roots):
         for dp, dn, fn in os.walk(root):
             for f in sorted(fn):
                 p = os.path.join(dp, f)
-                st = os.stat(p)
-                out.append((p, st.st_mtime_ns, open(p, "rb").read()))
+                st = os.lstat(p)
+                # the inode too: a file that is sent again although nothing changed comes back with the same bytes and the
+                # same stamped mtime, but (staged and renamed) as a new inode
+                out.append((p, st.st_mtime_ns, st.st_ino, os.readlink(p).encode() if os.path.islink(p) else open(p, "rb").read()))
     return sorted(out)
 
 
@@ -161,8 +163,8 @@ def run_case(case):
            "src2": src2, "dst2": dst2, "staging": staging + sstaging, "alien": alien + salien,
            "exit": p.returncode, "reported": (b"FAILED" in p.stderr or b"Error" in p.stderr or b"rror" in p.stderr),
            "plan": [int(x) for x in m.groups()] if m else [-1, -1, -1],
-           "sent": int(dn.group(1)) if dn else 0, "failed": int(dn.group(4)) if dn else 0,
-           "second": {"ran": False, "transfer": -1, "delete": -1, "unchanged": True, "exit": 0},
+           "sent": int(dn.group(1)) if dn else 0, "failed": int(dn.group(4)) if dn else 0, "sent_known": bool(dn) or p.returncode != 0,
+           "second": {"ran": False, "known": False, "transfer": -1, "delete": -1, "unchanged": True, "exit": 0},
            "printed_send": [], "printed_delete": [], "induced": case.get("induced", ""), "unsendable": case.get("induced") == "unsendable",
            "stderr": p.stderr.decode("utf8", "replace")[-300:] if p.returncode else ""}
     if dry:
@@ -192,7 +194,8 @@ def run_case(case):
             t2, d2 = 0, 0
         else:
             t2, d2 = -1, -1
-        rec["second"] = {"ran": True, "transfer": t2, "delete": d2, "unchanged": snap1 == snap2, "exit": q.returncode}
+        # the printed counters are used when they can be read; "unchanged" (bytes, mtimes, inodes) does not depend on wording
+        rec["second"] = {"ran": True, "known": t2 >= 0, "transfer": t2, "delete": d2, "unchanged": snap1 == snap2, "exit": q.returncode}
     return rec
 
 
